@@ -31,7 +31,7 @@ func faultable(rec *world.ScanRecord) int {
 // indices. Each faulted scan must not panic or hang and may return only documented errors;
 // the following fault-free scan must behave as the band oracle demands.
 func TestC20Enum(t *testing.T) {
-	p := &world.Profile{Name: "chaos-enum", MinGroups: 1, MaxGroups: 2, Dry: 1, Fleet: 1, Auto: 1, Default: 1, Starve: 1, MaxAge: 1, MaxInit: 6, SmallGraces: true, Steps: 20, Stale: true,
+	p := &world.Profile{Name: "chaos-enum", OddConfig: true, MinGroups: 1, MaxGroups: 2, Dry: 1, Fleet: 1, Auto: 1, Default: 1, Starve: 1, MaxAge: 1, MaxInit: 6, SmallGraces: true, Steps: 20, Stale: true,
 		Weights: with(baseWeights(), "oddNode", 3, "oddPod", 3, "taintExt", 6, "detach", 1, "fleetPlan", 2, "advance", 8, "drainAndForce", 2, "targetUtil", 10)}
 	col := newCollector(t, "C20", "fault enumeration: a generated fault-free history ends in a scan with C calls; the history is replayed on fresh worlds with a failure at call index i of that scan for sampled (quick) or every (thorough) i < C and for pairs (i, j), then one more fault-free scan follows; non-trivial = an injected failure that was actually hit; distinct by (kind of the failed call, position class, outcome)")
 	thorough := isThorough()
